@@ -472,9 +472,14 @@ class Machine:
             except Exception as e:  # noqa: BLE001
                 f = fp.fp_exc(e)
             if f != self.F[k]:
-                self.violate('5-immutable', key=k, pattern=self.keys[k]['pattern'], mutation=what, outcome=list(out),
-                             detail='after the mutation attempt compile() of the same key no longer equals a fresh parse',
-                             expected=list(self.F[k]), observed=list(f))
+                if out[0] == 'raised':
+                    # the attempt was rejected and the object is intact: what differs is what the cache hands out
+                    self.violate('1-transparent', key=k, pattern=self.keys[k]['pattern'], expected=list(self.F[k]),
+                                 observed=list(f), at='re-compile after a rejected mutation attempt (cache not purged)')
+                else:
+                    self.violate('5-immutable', key=k, pattern=self.keys[k]['pattern'], mutation=what, outcome=list(out),
+                                 detail='after the mutation attempt compile() of the same key no longer equals a fresh parse',
+                                 expected=list(self.F[k]), observed=list(f))
         return out
 
     def op_select(self, op):
